@@ -29,7 +29,7 @@ REQUIRED = {t: {"columns_needing_stubs": 50, "choices_hook_or_fallback": 50, "do
 
 
 def gen_cases(tier, seed):
-    n = 300 if tier == "quick" else 6000
+    n = 300 if tier == "quick" else 40000
     return [{"seed": seed * 100057 + i} for i in range(n)]
 
 
